@@ -170,6 +170,8 @@ def gen_workload(tape):
         q["rmode"] = tape.pick(["between", "between", "tiny", "huge", "between"], "rmode")
         q["unit"] = tape.pick(["number", "km", "m", "miles", "number"], "unit")
         q["spelling"] = tape.choice(3, "spelling")
+        q["big_m"] = tape.pick([1025, 2500, 3001, 4102, 2048], "big_m") \
+            if tape.flag("big_query", 1, 25) else None
         # query the index with the very array objects it was built from
         q["self_query"] = tape.flag("self_query", 1, 6)
         qs.append(q)
@@ -211,6 +213,42 @@ def arc_matrix(b, q, R):
     return 2 * R * np.arcsin(np.minimum(1.0, np.sqrt(a)))
 
 
+def _pool_seams(gmod):
+    """concurrent.futures as typhon.geographical (and anything it calls) sees
+    it: pools belong to the simulator."""
+    import concurrent.futures as _cf
+    from sim.executors import (SimThreadPool, SimProcessPool, sim_as_completed, sim_wait)
+    seams = []
+    for mod in (gmod, _cf):
+        for name, fake in (("ThreadPoolExecutor", SimThreadPool),
+                           ("ProcessPoolExecutor", SimProcessPool),
+                           ("as_completed", sim_as_completed), ("wait", sim_wait)):
+            if mod is _cf or hasattr(mod, name):
+                seams.append((mod, name, fake))
+    return seams
+
+
+def _run_sim(sim, gmod, main):
+    from sim.executors import SimPoolBase
+    SimPoolBase.sim, SimPoolBase.registry = sim, []
+    try:
+        with patched(*_pool_seams(gmod)):
+            sim.run(main)
+    finally:
+        SimPoolBase.sim = None
+        SimPoolBase.registry = None
+
+
+def _run_in_kernel(tape, gmod, do_query, qi, V):
+    from sim.kernel import Sim, Deadlock, StepCap, make_policy
+    sim = Sim(tape, make_policy(tape, allow=("random", "sticky")), step_cap=20000)
+    try:
+        _run_sim(sim, gmod, lambda: do_query(qi))
+    except (Deadlock, StepCap) as e:
+        V.append(_viol("C06/query/no-termination", str(e)[:200]))
+    return sim.digest()
+
+
 def _concurrent_build(tape, w, gmod, build_main, build_decoy):
     from sim.kernel import Sim, Deadlock, StepCap
     from sim.linepreempt import LinePreempt, periodic_points
@@ -238,7 +276,7 @@ def _concurrent_build(tape, w, gmod, build_main, build_decoy):
                 raise t.exc
 
     try:
-        sim.run(main)
+        _run_sim(sim, gmod, main)
     except (Deadlock, StepCap):
         pass
     return box.get("index"), sim.digest()
@@ -271,7 +309,7 @@ def _run_two_callers(tape, w, gmod, do_query, nq):
                 raise t.exc
 
     try:
-        sim.run(main)
+        _run_sim(sim, gmod, main)
     except (Deadlock, StepCap) as e:
         out["violations"].append(_viol("C06/two-callers/no-termination", str(e)[:200]))
     out["digest"] = sim.digest()
@@ -328,6 +366,15 @@ def run_one(tape, only=None):
         qp = np.array(pts, dtype=float)
         if q["self_query"] and n <= 300:
             qp = build
+        if q.get("big_m") and n <= 300:
+            # several thousand query points (near build points): a query large
+            # enough for any chunked or parallel search inside the index
+            rs_q = np.random.RandomState(q["rsel"])
+            pick = rs_q.randint(0, n, q["big_m"])
+            qp = build[pick] + rs_q.uniform(-0.02, 0.02, (q["big_m"], 2))
+            qp[:, 0] = np.clip(qp[:, 0], -90.0, 90.0)
+            qp[:, 1] = ((qp[:, 1] + 180.0) % 360.0) - 180.0
+            probe("query_with_thousands_of_points")
         D = arc_matrix(build, qp, R) if metric == "haversine" else chord_matrix(build, qp, R)
         vals = np.unique(np.round(D.ravel(), 9))
         if q["rmode"] == "tiny":
@@ -345,6 +392,8 @@ def run_one(tape, only=None):
                 r = lo_v + 5e-5
         if r <= 0:
             r = 1e-4
+        if q.get("big_m") and n <= 300 and int((D <= r).sum()) > 20000:
+            r = 1e-4                 # keep the pair set of a big query small
         if metric == "haversine":
             r = min(r, 0.9999 * math.pi * R)    # quantifier: up to half the circumference
         border = np.abs(D - r) < 1e-6
@@ -556,7 +605,12 @@ def run_one(tape, only=None):
 
             if not w["two_callers"]:
                 for qi in range(len(queries)):
-                    do_query(qi)
+                    if len(queries[qi][0]) > 1000:
+                        # inside the kernel with the pool seams: a search that
+                        # is spread over a thread pool is scheduled by the tape
+                        sched = [sched, _run_in_kernel(tape, gmod, do_query, qi, V)]
+                    else:
+                        do_query(qi)
             else:
                 probe("two_caller_threads")
                 two = _run_two_callers(tape, w, gmod, do_query, len(queries))
